@@ -16,7 +16,7 @@ import dlib  # noqa: E402
 
 warnings.simplefilter("ignore")
 
-from traits.api import (Any, Dict, HasTraits, Int, List, Set, Tuple, Union, Undefined,  # noqa: E402
+from traits.api import (Any, ComparisonMode, Dict, HasTraits, Int, List, Set, Tuple, Union, Undefined,  # noqa: E402
                         Uninitialized)
 from traits.trait_notifiers import StaticTraitChangeNotifyWrapper  # noqa: E402
 from traits.trait_list_object import TraitListObject  # noqa: E402
@@ -179,34 +179,43 @@ class World:
         for t in self.case["traits"]:
             n, k, c = t["name"], t["kind"], t["content"]
             a = "t%d" % n
+            md = {}
+            if t.get("cmp", "equality") != "equality":
+                md["comparison_mode"] = getattr(ComparisonMode, t["cmp"])
             if k == "KConst":
-                ns[a] = Int(c[0])
+                ns[a] = Int(c[0], **md)
             elif k == "KListCopy":
-                ns[a] = Any(list(c))
+                ns[a] = Any(list(c), **md)
             elif k == "KDictCopy":
-                ns[a] = Any(dict_of(c))
+                ns[a] = Any(dict_of(c), **md)
             elif k == "KTraitList":
-                ns[a] = List(Int, list(c))
+                ns[a] = List(Int, list(c), **md)
             elif k == "KTraitDict":
-                ns[a] = Dict(Int, Int, dict_of(c))
+                ns[a] = Dict(Int, Int, dict_of(c), **md)
             elif k == "KTraitSet":
-                ns[a] = Set(Int, set(c))
+                ns[a] = Set(Int, set(c), **md)
             elif k == "KFactory":
-                ns[a] = Any(factory=counted_factory(n, c))
+                ns[a] = Any(factory=counted_factory(n, c), **md)
             elif k == "KMethod":
-                ns[a] = List(Int)
+                ns[a] = List(Int, **md)
                 ns["_%s_default" % a] = counted_method(n, c)
             elif k == "KMethodInt":
-                ns[a] = Int(0)
+                ns[a] = Int(0, **md)
                 ns["_%s_default" % a] = counted_int_method(n, c)
             elif k == "KTuple":
-                ns[a] = Tuple(List(Int, list(c)), Int(t["scalar"]))
+                ns[a] = Tuple(List(Int, list(c)), Int(t["scalar"]), **md)
             elif k == "KUnion":
-                ns[a] = Union(List(Int, list(c)), Int)
+                ns[a] = Union(List(Int, list(c)), Int, **md)
             else:
                 raise ValueError(k)
             if t["static"]:
                 ns["_%s_changed" % a] = static_handler(n)
+        wild = self.case.get("wild")
+        if wild:
+            # a wildcard trait: every name not defined otherwise (t60, t61, ...) resolves through the prefix trait ""
+            ns["_"] = Int(wild["default"])
+            for n in wild["static"]:
+                ns["_t%d_changed" % n] = static_handler(n)
         base = type(HasTraits)("Base", (HasTraits,), ns)
         ns2 = {}
         for o in self.case["sub"]:
@@ -222,6 +231,13 @@ class World:
             else:
                 raise ValueError(o["how"])
         sub = type(HasTraits)("Sub", (base,), ns2)
+        if wild:
+            # resolve every wildcard name once per class on a throw-away instance (the name with the static handler
+            # first): from here on they are ordinary class traits, as the declared tables list them
+            for cls in (base, sub):
+                warm = cls()
+                for n in sorted(wild["names"], key=lambda n: (n not in wild["static"], n)):
+                    getattr(warm, "t%d" % n)
         return [base, sub]
 
     # ----- trait definitions as observed
@@ -282,7 +298,7 @@ class World:
             for n in names:
                 ct = cts["t%d" % n] if ("t%d" % n) in cts else bts["t%d" % n]
                 rows.append([n, self.tdef(ct, n, ci)])
-                if ("t%d" % n) not in cts or ("t%d" % n) not in bts:
+                if n < 60 and (("t%d" % n) not in cts or ("t%d" % n) not in bts):   # (wildcard names live in cts only)
                     rows.append([n + 2000, self.tdef(ct, n, ci)])     # defined in only one of the two class dictionaries
             rows.append([-1, self.tdef(cts["trait_added"], -1, ci)])
             out.append(rows)
@@ -324,6 +340,8 @@ class World:
     def kind_of(self, i, n):
         if n in self.shadow[i]:
             return self.shadow[i][n]
+        if n not in self.cfg:
+            return "KConst"            # a wildcard name
         t = self.cfg[n]
         if type(self.insts[i]) is self.classes[1] and n in self.sub and self.sub[n]["how"] == "method":
             return "KMethodInt" if t["kind"] in ("KConst", "KMethodInt") else "KMethod"
@@ -372,6 +390,11 @@ class World:
             ret = getattr(obj, a)
         elif k == "Assign":
             setattr(obj, a, self.payload(self.kind_of(i, op[2]), op[3], op[4]))
+        elif k == "AssignFrom":
+            src = self.insts[op[3]]
+            if a not in src.__dict__:
+                raise RuntimeError("source attribute is not materialised")
+            setattr(obj, a, src.__dict__[a])       # the very container object of another instance
         elif k == "Mutate":
             v = getattr(obj, a)
             x = op[3]
